@@ -147,11 +147,11 @@ func (ip *Interp) Exec(line string) ([]string, error) {
 		if err := ip.number(n); err != nil {
 			return nil, err
 		}
-		m, err := script.ParseMsg(toks[2:])
+		ms, err := script.ParseMsgs(toks[2:])
 		if err != nil {
 			return nil, err
 		}
-		return nil, ip.R.GovExec(n, m)
+		return nil, ip.R.GovExec(n, ms)
 	case "END":
 		if err := want(phBlock, 1); err != nil {
 			return nil, err
